@@ -106,10 +106,31 @@ def run(tier, replay=None):
             tid = l.split()[1]
             res.violation("estimate-" + tid, {"theorem_or_correspondence": "Radial/EstimateModel.prim_estimate (extracted) = RadialIntegral::estimate_type2 (1e-11 relative): the screening estimate is the recorded formula",
                                               "input": {"tuple(id N l1 l2 n a b A B)": tby.get(tid)}, "observed": l, "n": int(ekv["mismatches"])})
+        # ---- the per-l shell-pair estimate (ECPIntegral::estimate_type2) against its extracted model, for every pair as given and for the
+        #      exponent-weighted, shifted variants the derivative routines build (1e-11 relative): a changed or stale estimate is a violation
+        pcf = os.path.join(tmp, "pest_cases.txt"); pof = os.path.join(tmp, "pest.txt")
+        pest_cases = [c for c in cases if c["shells"][0]["l"] <= maxl and c["shells"][1]["l"] <= maxl]
+        gen.write_cases(pcf, pest_cases)
+        pexe = compile_driver("drv_pest.cpp", "rel")
+        rc, o = sh([pexe, pcf, pof], check=False, timeout=3600)
+        if rc != 0:
+            raise RuntimeError("drv_pest failed: " + o[-1500:])
+        rc, po = sh([os.path.join(OCAML, "drv_pest"), pof, "1e-11"], check=False, timeout=3600)
+        ps_ = [l for l in po.splitlines() if l.startswith("SUMMARY")]
+        if rc != 0 or not ps_:
+            raise RuntimeError("drv_pest (model) failed: " + po[-1500:])
+        pkv = dict(x.split("=") for x in ps_[0].split()[1:])
+        res.cov["pair_estimates_compared"] = int(pkv["compared"]); res.cov["pair_estimates_below_threshold"] = int(pkv["below_threshold"]); res.cov["pair_screen_decisions_compared"] = int(pkv.get("decisions", 0))
+        pmis = [l for l in po.splitlines() if l.startswith("MISMATCH")]
+        cby = {c["id"]: c for c in cases}
+        for jj, l in enumerate(pmis[:2]):
+            pid_ = l.split()[1]; base = pid_.rsplit("_", 1)[0]
+            res.violation("pairestimate%d-%s" % (jj, pid_), {"theorem_or_correspondence": "ShellPair/PairEstimate.pair_estimate (extracted) = ECPIntegral::estimate_type2 (1e-11 relative), for the pair and the exponent-weighted shifted variants of the derivative routines",
+                                                   "input": {k: v for k, v in cby.get(base, {}).items() if k != "extra"}, "variant": pid_.rsplit("_", 1)[1], "observed": l, "n": int(pkv["mismatches"])})
         blocks, _ = pair_k.run_pairs(cases, tmp)
         active = set(k.get("id") for k in load_known() if k.get("status") == "known")
         active_ids = active
-        viol = []; known = []; nscreened = 0; worst = 0.0; dviol = []
+        viol = []; known = []; nscreened = 0; worst = 0.0; dviol = []; known_l = []
         for c in cases:
             b = blocks[c["id"]]
             on = b["v_d"][2]; off = b["v_ns"][2]
@@ -125,6 +146,8 @@ def run(tier, replay=None):
             dvp = max(abs(x - y) for x, y in zip(offp, off)); dvl = max(abs(x - y) for x, y in zip(offl, off))
             if dvp <= tol and "F-C12-screen" in active:
                 known.append((c["id"], dv, tol))
+            elif dvl <= tol and "F-C06-perl" in active:
+                known_l.append((c["id"], dv, tol))
             else:
                 site = "per-l shell-pair screen" if dvl <= tol else ("primitive estimate screen" if dvp <= tol else "several sites")
                 viol.append((c, "screens discard %.3e > %.3e = 1e-9 x prod sum|c| (kind %s, classes %d,%d,%d); removed by bypassing: %s" % (dv, tol, c["extra"]["kind"], c["shells"][0]["l"], c["shells"][1]["l"], max(p["l"] for p in c["ecps"][0]["p"]), site)))
@@ -181,6 +204,8 @@ def run(tier, replay=None):
                 dvp = max(abs(x - y) for x, y in zip(offp, off)); dvl = max(abs(x - y) for x, y in zip(offl, off))
                 if dvp <= tol and "F-C12-screen" in active_ids:
                     dknown.append((c["id"], dv, tol))
+                elif dvl <= tol and "F-C06-perl" in active_ids:
+                    known_l.append((c["id"], dv, tol))
                 else:
                     site = "per-l shell-pair screen" if dvl <= tol else ("primitive estimate screen" if dvp <= tol else "several sites")
                     dviol.append((c, "%s blocks: screens discard %.3e > %.3e = 1e-9 x prod sum|c| (kind %s, classes %d,%d); removed by bypassing: %s" % (what, dv, tol, c["extra"]["kind"], c["shells"][0]["l"], c["shells"][1]["l"], site)))
@@ -267,6 +292,10 @@ def run(tier, replay=None):
         res.cov["traces_validated_against_impl"] = len(cases)
         res.sample({"id": cases[0]["id"], "kind": cases[0]["extra"]["kind"], "A": cases[0]["shells"][0]["c"], "expsA": cases[0]["shells"][0]["e"]})
         res.sample({"id": cases[1]["id"], "kind": cases[1]["extra"]["kind"]})
+        if known_l:
+            w = max(known_l, key=lambda t: t[1] / t[2])
+            res.known("F-C06-perl: in %d shell pairs (integral or derivative blocks) the per-l shell-pair screen alone discards more than the bound (largest %s: %.2e vs %.2e); the estimate itself is the recorded formula (model correspondence)" % (len(known_l), w[0], w[1], w[2]))
+            res.cov["known_finding_perl_cases"] = len(known_l)
         if known:
             w = max(known, key=lambda t: t[1] / t[2])
             res.known("F-C12-screen: in %d shell pairs the primitive estimate screen alone discards more than the bound (largest %s: %.2e vs %.2e)" % (len(known), w[0], w[1], w[2]))
